@@ -13,6 +13,7 @@
 //! - H4 [`accumulator_state_root`] / [`accumulator_root_after_ops`].
 //! - H5 [`io_point`]: observer called at write-ahead-log I/O points.
 //! - H6 [`fail_point`]: armed failure sites.
+//! - H7 [`set_frontier_tick`], [`delete_root_instance`], [`set_global_tick`]: runtime pokes.
 
 use std::cell::RefCell;
 use std::collections::BTreeMap;
@@ -450,4 +451,44 @@ pub fn fail_point(site: &str) -> bool {
             None => false,
         }
     })
+}
+
+// ============================================================================
+// H7: runtime pokes (what in-crate tests do with private access)
+// ============================================================================
+
+/// Overwrites the frontier tick of `worldline` (e.g. `WorldlineTick::MAX` to provoke overflow).
+/// Returns false if the worldline is unknown.
+pub fn set_frontier_tick(
+    runtime: &mut crate::coordinator::WorldlineRuntime,
+    worldline: &crate::worldline::WorldlineId,
+    tick: crate::clock::WorldlineTick,
+) -> bool {
+    match runtime.frontier_mut(worldline) {
+        Ok(frontier) => {
+            frontier.frontier_tick = tick;
+            true
+        }
+        Err(_) => false,
+    }
+}
+
+/// Deletes the root warp instance of `worldline`'s frontier state so that the next commit on
+/// it fails with a typed engine error. Returns false if nothing was deleted.
+pub fn delete_root_instance(
+    runtime: &mut crate::coordinator::WorldlineRuntime,
+    worldline: &crate::worldline::WorldlineId,
+) -> bool {
+    match runtime.frontier_mut(worldline) {
+        Ok(frontier) => {
+            let root = frontier.state.root.warp_id;
+            frontier.state.warp_state.delete_instance(&root)
+        }
+        Err(_) => false,
+    }
+}
+
+/// Overwrites the runtime's global tick (e.g. `GlobalTick::MAX` to provoke overflow).
+pub fn set_global_tick(runtime: &mut crate::coordinator::WorldlineRuntime, tick: crate::clock::GlobalTick) {
+    runtime.verif_set_global_tick(tick);
 }
